@@ -111,10 +111,20 @@ fn exercise(schema_src: &str, doc_src: &str, obs: &mut Obs) {
 // adversarial families: valid GraphQL whose only possible complaint is a limit
 // ---------------------------------------------------------------------------------------------
 
-pub const FAMILIES: [&str; 14] = [
+pub const FAMILIES: [&str; 18] = [
     "frag-deep", "frag-deep-inline", "frag-flat", "frag-nested", "frag-inline", "sel-depth", "inline-depth", "directive-chain", "input-chain",
     "list-type", "object-value", "list-value", "merge-depth", "var-deep",
+    "input-chain-wide", "input-nullable-cycle", "directive-type-chain", "directive-enum-chain",
 ];
+
+/// self-referential schemas: never valid, must be rejected (cycle or limit diagnostic), never crash
+pub const CYCLE_FAMILIES: [&str; 4] = ["input-cycle", "input-cycle-mid", "directive-type-cycle", "directive-arg-cycle"];
+
+pub fn cycle_sizes(thorough: bool) -> Vec<usize> {
+    let mut v: Vec<usize> = vec![1, 2, 3, 16, 31, 32, 33, 34, 64, 100, 500, 3000];
+    if thorough { v.extend(4..=70); v.extend([1000, 10000]); }
+    v.sort(); v.dedup(); v
+}
 
 pub fn family(name: &str, n: usize) -> (String, String) {
     let mut s = String::new();
@@ -171,6 +181,49 @@ pub fn family(name: &str, n: usize) -> (String, String) {
             s.push_str("type Query { field(arg: I0): Boolean } input I0 { nest: I1! }");
             for i in 1..n { write!(s, "\ninput I{i} {{ nest: I{}! }}", i + 1).unwrap(); }
             write!(s, " input I{n} {{ last: Boolean }}").unwrap();
+            d.push_str("{ field }");
+        }
+        "input-chain-wide" => {
+            // the chain of `input-chain`, every link also reachable through a list and a nullable field with a default
+            s.push_str("type Query { field(arg: I0): Boolean }");
+            for i in 0..n { write!(s, "\ninput I{i} {{ nest: I{}! side: [I{}!] = [] opt: I{} = null }}", i + 1, i + 1, i + 1).unwrap(); }
+            write!(s, " input I{n} {{ last: Boolean }}").unwrap();
+            d.push_str("{ field }");
+        }
+        "input-nullable-cycle" => {
+            // a cycle of n input objects through nullable fields is valid; default values are checked against it
+            s.push_str("type Query { field(arg: C0 = {next: {}}): Boolean }");
+            for i in 0..n { write!(s, "\ninput C{i} {{ next: C{} = {{}} items: [C{}!]! = [{{}}] }}", (i + 1) % n, (i + 1) % n).unwrap(); }
+            d.push_str("{ field(arg: {next: {next: null}}) }");
+        }
+        "directive-type-chain" => {
+            // directive -> argument type -> field directive -> ... : both name stacks of the directive search grow
+            s.push_str("type Query { field(x: T1): Int }");
+            for i in 1..n { write!(s, "\ndirective @a{i}(arg: T{i}) on INPUT_FIELD_DEFINITION input T{i} {{ f: Int @a{} }}", i + 1).unwrap(); }
+            write!(s, "\ndirective @a{n}(arg: T{n}) on INPUT_FIELD_DEFINITION input T{n} {{ f: Int }}").unwrap();
+            d.push_str("{ field }");
+        }
+        "directive-enum-chain" => {
+            s.push_str("type Query { field(x: E1): Int }");
+            for i in 1..n { write!(s, "\ndirective @e{i}(arg: E{i}) on ENUM_VALUE enum E{i} {{ V @e{} W }}", i + 1).unwrap(); }
+            write!(s, "\ndirective @e{n}(arg: E{n}) on ENUM_VALUE enum E{n} {{ V W }}").unwrap();
+            d.push_str("{ field }");
+        }
+        "input-cycle" | "input-cycle-mid" => {
+            // n input objects in a non-null chain that closes (at the start / in the middle)
+            let back = if name == "input-cycle" { 0 } else { n / 2 };
+            s.push_str("type Query { field(arg: I0): Boolean }");
+            for i in 0..n { write!(s, "\ninput I{i} {{ pad: Int = 1 nest: I{}! }}", if i + 1 < n { i + 1 } else { back }).unwrap(); }
+            d.push_str("{ field }");
+        }
+        "directive-type-cycle" => {
+            s.push_str("type Query { field(x: T1): Int }");
+            for i in 1..=n { write!(s, "\ndirective @a{i}(arg: T{i}) on INPUT_FIELD_DEFINITION input T{i} {{ f: Int @a{} }}", if i < n { i + 1 } else { 1 }).unwrap(); }
+            d.push_str("{ field }");
+        }
+        "directive-arg-cycle" => {
+            s.push_str("type Query { field: Int }");
+            for i in 1..=n { write!(s, "\ndirective @a{i}(arg: Boolean @a{}) on ARGUMENT_DEFINITION", if i < n { i + 1 } else { 1 }).unwrap(); }
             d.push_str("{ field }");
         }
         "list-type" => {
@@ -435,7 +488,9 @@ fn run_children(specs: &[String]) -> Vec<ChildResult> {
     slots.into_iter().map(|m| m.into_inner().unwrap().unwrap()).collect()
 }
 
-fn digest(ctx: &mut Ctx, spec: &str, r: &ChildResult, describe: &dyn Fn(&str) -> String, valid_family: bool) {
+fn digest(ctx: &mut Ctx, spec: &str, r: &ChildResult, describe: &dyn Fn(&str) -> String, valid_family: bool) { digest_x(ctx, spec, r, describe, valid_family, false) }
+
+fn digest_x(ctx: &mut Ctx, spec: &str, r: &ChildResult, describe: &dyn Fn(&str) -> String, valid_family: bool, must_reject: bool) {
     let mut cur = String::new();
     let mut open = false;
     // per instance: (diagnostics, limit diagnostics, first stage with diagnostics, first other message)
@@ -451,6 +506,11 @@ fn digest(ctx: &mut Ctx, spec: &str, r: &ChildResult, describe: &dyn Fn(&str) ->
                     ctx.fail(&format!("depth-without-limit-diagnostic:{}", cur.split(':').next().unwrap_or("")), &describe(&cur), &format!("stage {}: diagnostics on an otherwise valid input, none of them (in any stage) a recursion-limit diagnostic; first: {}", agg.2, agg.3));
                 }
                 if valid_family { ctx.stat(if agg.0 == 0 { "family_instances_valid" } else { "family_instances_limit_diagnostic" }); }
+                // a self-referential schema is rejected: by the cycle diagnostic, or by the limit diagnostic when it is long
+                if must_reject {
+                    if agg.0 == 0 { ctx.fail(&format!("cycle-accepted:{}", cur.split(':').next().unwrap_or("")), &describe(&cur), "a self-referential schema produced no diagnostic in any stage"); }
+                    ctx.stat(if agg.1 > 0 { "cycle_instances_limit_diagnostic" } else { "cycle_instances_cycle_diagnostic" });
+                }
             }
             "PANIC" => { ctx.fail(&format!("panic:{}", cur.split(':').next().unwrap_or("")), &describe(&cur), f.get(1).unwrap_or(&"")); }
             "D" if f.len() >= 6 => {
@@ -634,11 +694,158 @@ fn fragcycle_depth_stream(ctx: &mut Ctx) {
     }
 }
 
+// ---------------------------------------------------------------------------------------------
+// the schema-side cycle detectors (input objects, directive definitions): answer per definition —
+// `o`k, `r`ecursive, `l`imit — against the instrumented models (which also check their ghosts)
+// ---------------------------------------------------------------------------------------------
+
+const SEARCH_LIMIT: usize = 32;
+
+/// per definition (found by the offset its diagnostics point at): 'o' / 'r' / 'l'
+fn search_outcomes(text: &str, offsets: &[usize]) -> Result<String, String> {
+    let t = text.to_string();
+    let r = catch(move || {
+        let errs: Vec<(Option<usize>, String)> = match Schema::parse_and_validate(&t, "s.graphql") {
+            Ok(_) => vec![],
+            Err(e) => e.errors.iter().map(|d| (d.error.location().map(|l| l.offset()), d.error.to_string())).collect(),
+        };
+        errs
+    });
+    let errs = r?;
+    let mut out = vec!['o'; offsets.len()];
+    for (off, msg) in errs {
+        if let Some(i) = off.and_then(|o| offsets.iter().position(|x| *x == o)) {
+            if msg.contains("too much nesting") { out[i] = if out[i] == 'r' { 'X' } else { 'l' } }
+            else if msg.contains("cannot reference itself") { out[i] = if out[i] == 'l' { 'X' } else { 'r' } }
+        }
+    }
+    Ok(out.iter().collect())
+}
+
+/// field kinds: (non-null named?, target); other kinds: nullable named / list
+fn inputguard_case(ctx: &mut Ctx, g: &[Vec<(u8, usize)>]) {
+    let n = g.len();
+    let mut text = String::from("type Query { a: Int }\n");
+    let mut offsets = vec![];
+    let mut encs = vec![];
+    for (i, fs) in g.iter().enumerate() {
+        offsets.push(text.len());
+        let mut parts = vec![];
+        let mut e = vec![];
+        for (k, (kind, j)) in fs.iter().enumerate() {
+            let tn = if *j < n { format!("In{j}") } else { "Int".to_string() };
+            let (t, c) = match kind { 0 => (format!("{tn}!"), format!("N{j}")), 1 => (tn.clone(), format!("n{j}")), 2 => (format!("[{tn}!]!"), format!("L{j}")), _ => (format!("{tn} = null"), format!("n{j}d")) };
+            parts.push(format!("f{k}: {t}"));
+            e.push(c);
+        }
+        text.push_str(&format!("input In{i} {{ {} pad: Int }}\n", parts.join(" ")));
+        encs.push(e.join(","));
+    }
+    let out = match search_outcomes(&text, &offsets) { Ok(o) => o, Err(p) => { ctx.fail("panic:inputguard", &text, &p); "PANIC".into() } };
+    if out.contains('r') { ctx.stat("inputguard_with_cycle"); }
+    if out.contains('l') { ctx.stat("inputguard_with_limit"); }
+    if out.contains('r') || out.contains('l') { ctx.nontrivial(&format!("ig|{}", encs.join("|"))); }
+    ctx.case("inputguard", &[SEARCH_LIMIT.to_string(), format!("G{}", encs.join("|"))], &out);
+}
+
+#[derive(Clone, Debug, Default)]
+struct GA { dirs: Vec<usize>, ty: Option<usize> }
+#[derive(Clone, Debug, Default)]
+struct GT { kind: u8, dirs: Vec<usize>, values: Vec<Vec<usize>>, fields: Vec<GA> }
+
+fn dirguard_case(ctx: &mut Ctx, dirs: &[Vec<GA>], types: &[GT]) {
+    let app = |v: &[usize]| v.iter().map(|d| format!(" @d{d}")).collect::<String>();
+    let nums = |v: &[usize]| v.iter().map(|x| x.to_string()).collect::<Vec<_>>().join(",");
+    let arg = |k: usize, a: &GA| format!("a{k}: {}{}", a.ty.map(|t| format!("T{t}")).unwrap_or("Int".into()), app(&a.dirs));
+    let enc_arg = |a: &GA| format!("{}:{}", nums(&a.dirs), a.ty.map(|t| t.to_string()).unwrap_or("-".into()));
+    let mut text = String::from("type Query { a: Int }\n");
+    let mut offsets = vec![];
+    let mut denc = vec![];
+    for (i, args) in dirs.iter().enumerate() {
+        offsets.push(text.len());
+        let a = if args.is_empty() { String::new() } else { format!("({})", args.iter().enumerate().map(|(k, a)| arg(k, a)).collect::<Vec<_>>().join(", ")) };
+        text.push_str(&format!("directive @d{i}{a} repeatable on ARGUMENT_DEFINITION | SCALAR | ENUM | ENUM_VALUE | INPUT_OBJECT | INPUT_FIELD_DEFINITION\n"));
+        denc.push(args.iter().map(|a| enc_arg(a)).collect::<Vec<_>>().join(";"));
+    }
+    let mut tenc = vec![];
+    for (k, t) in types.iter().enumerate() {
+        match t.kind {
+            0 => text.push_str(&format!("scalar T{k}{}\n", app(&t.dirs))),
+            1 => text.push_str(&format!("enum T{k}{} {{ {} VZ }}\n", app(&t.dirs), t.values.iter().enumerate().map(|(j, v)| format!("V{j}{}", app(v))).collect::<Vec<_>>().join(" "))),
+            _ => text.push_str(&format!("input T{k}{} {{ {} pad: Int }}\n", app(&t.dirs), t.fields.iter().enumerate().map(|(j, a)| arg(j, a)).collect::<Vec<_>>().join(" "))),
+        }
+        tenc.push(format!("{}/{}/{}/{}", ["s", "e", "i"][t.kind as usize], nums(&t.dirs),
+            if t.kind == 1 { t.values.iter().map(|v| nums(v)).collect::<Vec<_>>().join(";") } else { String::new() },
+            if t.kind == 2 { t.fields.iter().map(|a| enc_arg(a)).collect::<Vec<_>>().join(";") } else { String::new() }));
+    }
+    let out = match search_outcomes(&text, &offsets) { Ok(o) => o, Err(p) => { ctx.fail("panic:dirguard", &text, &p); "PANIC".into() } };
+    if out.contains('r') { ctx.stat("dirguard_with_cycle"); }
+    if out.contains('l') { ctx.stat("dirguard_with_limit"); }
+    if out.contains('r') || out.contains('l') { ctx.nontrivial(&format!("dg|{}|{}", denc.join("|"), tenc.join("|"))); }
+    ctx.case("dirguard", &[SEARCH_LIMIT.to_string(), format!("G{}", denc.join("|")), format!("G{}", tenc.join("|"))], &out);
+}
+
+fn searchguard_stream(ctx: &mut Ctx) {
+    // input objects: random small graphs
+    let n_rand = if ctx.thorough { 20_000 } else { 1_500 };
+    for _ in 0..n_rand {
+        let k = 1 + ctx.rng.below(5);
+        let g: Vec<Vec<(u8, usize)>> = (0..k).map(|_| { let nf = ctx.rng.below(4); (0..nf).map(|_| ((*ctx.rng.pick(&[0u8, 0, 0, 1, 2, 3])), ctx.rng.below(k + 1))).collect() }).collect();
+        inputguard_case(ctx, &g);
+    }
+    // chains around the limit of 32 names: open, closed at the start / middle / end, with a side branch
+    let lens: Vec<usize> = if ctx.thorough { (28..=40).collect() } else { vec![30, 31, 32, 33, 34, 35] };
+    for k in lens.iter().copied() {
+        for close in 0..5 {
+            let mut g: Vec<Vec<(u8, usize)>> = (0..k).map(|i| if i + 1 < k { vec![(0u8, i + 1)] } else { vec![] }).collect();
+            match close { 0 => {} 1 => g[k - 1].push((0, 0)), 2 => g[k - 1].push((0, k / 2)), 3 => g[k - 1].push((0, k - 1)), _ => { g[0].insert(0, (1, k - 1)); g[k / 2].push((2, 0)); g[k - 1].push((0, 0)); } }
+            inputguard_case(ctx, &g);
+        }
+    }
+    // directive definitions: random small schemas
+    for _ in 0..n_rand {
+        let nd = 1 + ctx.rng.below(5);
+        let nt = ctx.rng.below(5);
+        let some_dirs = |r: &mut Rng, p: u32| -> Vec<usize> { let mut v = vec![]; while r.chance(1, p) && v.len() < 2 { v.push(r.below(nd)); } v };
+        let gen_arg = |r: &mut Rng| GA { dirs: some_dirs(r, 3), ty: if nt > 0 && r.chance(1, 2) { Some(r.below(nt)) } else { None } };
+        let dirs: Vec<Vec<GA>> = (0..nd).map(|_| { let na = ctx.rng.below(3); (0..na).map(|_| gen_arg(&mut ctx.rng)).collect() }).collect();
+        let types: Vec<GT> = (0..nt).map(|_| {
+            let kind = ctx.rng.below(3) as u8;
+            let mut t = GT { kind, dirs: some_dirs(&mut ctx.rng, 4), values: vec![], fields: vec![] };
+            if kind == 1 { let nv = ctx.rng.below(3); t.values = (0..nv).map(|_| some_dirs(&mut ctx.rng, 3)).collect(); }
+            if kind == 2 { let nf = ctx.rng.below(3); t.fields = (0..nf).map(|_| gen_arg(&mut ctx.rng)).collect(); }
+            t
+        }).collect();
+        dirguard_case(ctx, &dirs, &types);
+    }
+    for k in lens.iter().copied() {
+        for close in 0..3 {
+            // (a) through argument directives only
+            let mut dirs: Vec<Vec<GA>> = (0..k).map(|i| if i + 1 < k { vec![GA { dirs: vec![i + 1], ty: None }] } else { vec![] }).collect();
+            match close { 0 => {} 1 => dirs[k - 1].push(GA { dirs: vec![0], ty: None }), _ => dirs[k - 1].push(GA { dirs: vec![k / 2], ty: None }) }
+            dirguard_case(ctx, &dirs, &[]);
+            // (b) through argument types: @d_i(a: T_i), input T_i { f: Int @d_{i+1} } — both stacks grow
+            let dirs: Vec<Vec<GA>> = (0..k).map(|i| vec![GA { dirs: vec![], ty: Some(i) }]).collect();
+            let types: Vec<GT> = (0..k).map(|i| {
+                let next = if i + 1 < k { Some(i + 1) } else { match close { 0 => None, 1 => Some(0), _ => Some(k / 2) } };
+                GT { kind: 2, dirs: vec![], values: vec![], fields: vec![GA { dirs: next.into_iter().collect(), ty: None }] }
+            }).collect();
+            dirguard_case(ctx, &dirs, &types);
+            // (c) through enum values, the type chain alone growing: @d0(a: T0), input T_i { f: T_{i+1} }, enum at the end
+            let dirs2: Vec<Vec<GA>> = vec![vec![GA { dirs: vec![], ty: Some(0) }]];
+            let types2: Vec<GT> = (0..k).map(|i| if i + 1 < k { GT { kind: 2, dirs: vec![], values: vec![], fields: vec![GA { dirs: vec![], ty: Some(i + 1) }] } }
+                else { GT { kind: 1, dirs: vec![], values: vec![if close == 0 { vec![] } else { vec![0] }], fields: vec![] } }).collect();
+            dirguard_case(ctx, &dirs2, &types2);
+        }
+    }
+}
+
 pub fn run(ctx: &mut Ctx) {
     guard_stream(ctx);
     sort_stream(ctx);
     fragcycle_stream(ctx);
     fragcycle_depth_stream(ctx);
+    searchguard_stream(ctx);
     // adversarial families, one child process per instance
     let mut specs = vec![];
     for f in FAMILIES { for n in sizes(ctx.thorough) { specs.push(format!("family:{f}:{n}")); } }
@@ -652,6 +859,20 @@ pub fn run(ctx: &mut Ctx) {
             format!("family {name} size {n}; schema: {} ; document: {}", clip(&s), clip(&d))
         };
         digest(ctx, spec, r, &describe, true);
+    }
+    // self-referential schemas
+    let mut specs = vec![];
+    for f in CYCLE_FAMILIES { for n in cycle_sizes(ctx.thorough) { specs.push(format!("family:{f}:{n}")); } }
+    let results = run_children(&specs);
+    for (spec, r) in specs.iter().zip(results.iter()) {
+        let describe = |id: &str| -> String {
+            let p: Vec<&str> = id.split(':').collect();
+            let (name, n) = if p[0] == "family" { (p[1], p[2]) } else { (p[0], p.get(1).copied().unwrap_or("0")) };
+            let (s, _) = family(name, n.parse().unwrap_or(1));
+            let clip = |t: &str| if t.len() > 400 { format!("{}…[{} bytes]", &t[..t.char_indices().nth(300).map(|x| x.0).unwrap_or(0)], t.len()) } else { t.to_string() };
+            format!("cycle family {name} size {n}; schema: {}", clip(&s))
+        };
+        digest_x(ctx, spec, r, &describe, false, true);
     }
     // random soups
     let total: u64 = if ctx.thorough { 64_000 } else { 6_400 };
